@@ -61,8 +61,8 @@ Fixpoint corr_from (cfg : config) (s : state) (prev : list (option payload)) (i 
 
 Definition hist_corr (c : hcase) : option string :=
   match c with
-  | HCase cfg cls steps => corr_from cfg (state0 (clients_of cls)) [] 0 steps
-  | HCaseRaw _ _ _ | HCaseJwt _ _ _ | HCaseContract _ _ _ => None
+  | HCase cfg cls steps | HCaseContract cfg cls steps => corr_from cfg (state0 (clients_of cls)) [] 0 steps
+  | HCaseRaw _ _ _ | HCaseJwt _ _ _ => None
   end.
 
 (* the implementation's trace with full probe vectors, as the monitors read it *)
